@@ -124,31 +124,34 @@ def World.callHooked (w : World) (i : Nat) (t : Tid) (p : Proc) : World := Id.ru
   | none => return w.call i t p
   | some (hc, hi) =>
     let ok := (w.fail[i]!) == 0
-    let s0 := w.seg i
-    let some th0 := s0.ts[t]? | return { w with broken := true }
-    let some (sh1, th1) := tstep t s0.sh th0 p ok | return { w with broken := true }
-    let mut sh := sh1
-    let mut th := th1
-    let mut w := w
+    let some s1 := (w.seg i).step (.step t p ok) | return { w with broken := true }
+    let mut w := w.setSeg i s1
     for _ in [0:24] do
+      let s := w.seg i
+      let some th := s.ts[t]? | break
       if th.pc == .idle then break
-      let closing := (th.pc == .pdClose || th.pc == .ciClose || th.pc == .clClose) && sh.isOpen
-      match tstep t sh th .incRef ok with
+      let closing := (th.pc == .pdClose || th.pc == .ciClose || th.pc == .clClose) && s.sh.isOpen
+      match s.step (.step t .incRef ok) with
       | none => break
-      | some (sh', th') =>
-        sh := sh'
-        th := th'
+      | some s' =>
+        w := w.setSeg i s'
         if closing && w.hook.isSome then
-          -- publish the intermediate state, then let the other thread run
-          w := w.setSeg i { sh := sh, ts := s0.ts.set t th }
+          -- the intermediate state is published; now the other thread runs its incRef.  On the same
+          -- segment only the lock-free fast path can complete (the closer holds the mutex).
           w := { w with hook := none }
-          if hi == i then
-            w := { w with hookRes := "+h:blocked" }
-          else
-            let (w', okk) := w.incRef hc hi
-            w := if okk then w'.addHeld hc hi else w'
-            w := { w with hookRes := "+h:" ++ resTok (w.th hi hc).res }
-    return w.setSeg i { sh := sh, ts := (w.seg i).ts.set t th }
+          let okh := (w.fail[hi]!) == 0
+          match (w.seg hi).step (.step hc .incRef okh) with
+          | none => w := { w with hookRes := "+h:blocked" }
+          | some sh1 =>
+            let sh2 := runT sh1 hc okh 24
+            w := w.setSeg hi sh2
+            let thh := sh2.ts[hc]!
+            if thh.pc == .idle then
+              w := if thh.res == .ok then w.addHeld hc hi else w
+              w := { w with hookRes := "+h:" ++ resTok thh.res }
+            else
+              w := { w with hookRes := "+h:blocked" }
+    return w
 
 def World.delete (w : World) (i : Nat) : World :=
   let w := w.callHooked i sys .delete
